@@ -53,6 +53,7 @@ type c06Stats struct {
 	nonRecovAllPresent bool
 	injected        bool
 	zeroRWRejected  int
+	remapped        bool // a page was mapped onto its shared frame a second time
 }
 
 type c06Alias struct {
@@ -119,6 +120,7 @@ func c06Run(c c06Case) (fail *vlib.Failure, rs c06Stats) {
 	}
 	var aliases []c06Alias
 	var everAliases []uintptr
+	var everShared []int // the shared frame each page of everAliases was created for
 	// pg names a page deterministically (alias pages have run-dependent host addresses)
 	pg := func(page uint64) string {
 		for k, v := range everAliases {
@@ -213,9 +215,20 @@ func c06Run(c c06Case) (fail *vlib.Failure, rs c06Stats) {
 			} else if err != nil {
 				return vlib.Failf("%s: read-only mapping of the zero frame through %s failed: %s", when, op.Entry, err.Message), rs
 			}
-		case "cowPage":
+		case "cowPage", "recow":
 			sh := op.Shared % len(shared)
-			v := m.alias(shared[sh])
+			var v uintptr
+			again := op.Kind == "recow" && len(everAliases) > 0
+			if again {
+				// map a page that was mapped before (and may own a private writable frame
+				// since its fault) onto its shared frame again, as goruntime.sysMap does
+				// when a region is mapped anew
+				k := ((op.Page % len(everAliases)) + len(everAliases)) % len(everAliases)
+				v, sh = everAliases[k], everShared[k]
+				rs.remapped = true
+			} else {
+				v = m.alias(shared[sh])
+			}
 			flags := PageTableEntryFlag(op.Flags)
 			var err *kernel.Error
 			if pc := vlib.Catch(func() { err = Map(mm.PageFromAddress(v), shared[sh], flags) }); pc.Panicked {
@@ -231,8 +244,19 @@ func c06Run(c c06Case) (fail *vlib.Failure, rs c06Stats) {
 			if err != nil {
 				return vlib.Failf("%s: Map failed: %s", when, err.Message), rs
 			}
-			aliases = append(aliases, c06Alias{v, sh})
-			everAliases = append(everAliases, v)
+			if again {
+				for k := range aliases {
+					if aliases[k].virt == v {
+						aliases = append(aliases[:k], aliases[k+1:]...)
+						break
+					}
+				}
+				aliases = append(aliases, c06Alias{v, sh})
+			} else {
+				aliases = append(aliases, c06Alias{v, sh})
+				everAliases = append(everAliases, v)
+				everShared = append(everShared, sh)
+			}
 		case "gpf":
 			var regs gate.Registers
 			regs.Info = op.Info
@@ -405,7 +429,7 @@ func c06Run(c c06Case) (fail *vlib.Failure, rs c06Stats) {
 }
 
 func c06GenOp(t *rapid.T) c06Op {
-	op := c06Op{Kind: rapid.SampledFrom([]string{"zeroMap", "cowPage", "cowPage", "cowPage", "fault", "fault", "fault", "fault", "gpf"}).Draw(t, "kind")}
+	op := c06Op{Kind: rapid.SampledFrom([]string{"zeroMap", "cowPage", "cowPage", "cowPage", "recow", "fault", "fault", "fault", "fault", "gpf"}).Draw(t, "kind")}
 	op.P = [4]int{
 		rapid.SampledFrom([]int{0, 1, 255, 256, 509}).Draw(t, "p4"),
 		rapid.SampledFrom(c04Pn).Draw(t, "p3"),
@@ -417,7 +441,8 @@ func c06GenOp(t *rapid.T) c06Op {
 		op.Entry = rapid.SampledFrom([]string{"map", "mapTemp", "mapRegion", "identity", "pdtActive", "pdtInactive"}).Draw(t, "entry")
 		op.Flags = c04GenFlags(t)
 		op.Lead = rapid.IntRange(0, 2).Draw(t, "lead")
-	case "cowPage":
+	case "cowPage", "recow":
+		op.Page = rapid.IntRange(0, 12).Draw(t, "again")
 		op.Shared = rapid.IntRange(0, 2).Draw(t, "shared")
 		switch rapid.IntRange(0, 3).Draw(t, "flagclass") {
 		case 0:
@@ -471,6 +496,9 @@ func TestVerifC06(t *testing.T) {
 			labels = append(labels, "injected-failure-during-cow")
 		}
 		nt := len(labels) > 0
+		if rs.remapped {
+			labels = append(labels, "page-mapped-onto-its-shared-frame-again")
+		}
 		if rs.zeroRWRejected > 0 {
 			labels = append(labels, "writable-zero-frame-mapping-rejected")
 		}
